@@ -53,6 +53,9 @@ DISABLE_PATH = '/nonexistent/verif-c20/disable'
 PEERS = ['127.0.0.2', '127.0.0.3', '10.255.0.1', '2001:db8::2', '2001:db8::3']
 V4_IPS = ['192.0.2.1', '192.0.2.2', '198.51.100.7', '203.0.113.254', '10.0.0.0/24', '100.64.0.0/10']
 V6_IPS = ['2001:db8::1', '2001:db8:1::53', 'fd00::a:b', '2001:db8:ff00::/40']
+# --deaggregate-networks announces every address of a network: only small ones are given then
+SMALL_V4_NETS = ['192.0.2.8/30', '198.51.100.64/31', '203.0.113.5/32']
+SMALL_V6_NETS = ['2001:db8:2::10/126', '2001:db8:3::1/128']
 COMMUNITIES = ['65000:100', '64512:1', '0:0', '65000:65535', 'no-export', 'no-advertise']
 EXT_COMMUNITIES = ['target:65000:1', 'origin:1.2.3.4:5', 'target:192.0.2.1:5', 'target:4200000000:7']
 LARGE_COMMUNITIES = ['65000:1:2', '4200000000:0:4294967295', '1:1:1']
@@ -72,12 +75,14 @@ def option_sets(draw):
     family = draw(st.sampled_from(['v4', 'v6', 'mixed', 'mixed']))
     pool = {'v4': V4_IPS, 'v6': V6_IPS, 'mixed': V4_IPS + V6_IPS}[family]
     ips = draw(st.lists(st.sampled_from(pool), min_size=1, max_size=4, unique=True))
+    small = {'v4': SMALL_V4_NETS, 'v6': SMALL_V6_NETS, 'mixed': SMALL_V4_NETS + SMALL_V6_NETS}[family]
+    small_nets = draw(st.lists(st.sampled_from(small), min_size=1, max_size=2, unique=True))
     if family == 'mixed':
         next_hop = None
     else:
         next_hop = draw(st.sampled_from([None, '192.0.2.254' if family == 'v4' else '2001:db8::ffff']))
     increase = draw(st.sampled_from([1, 1, 0, 10, 1000]))
-    room = MAX32 - 3 * increase
+    room = MAX32 - 8 * increase  # at most nine addresses are announced (two small networks split into their addresses)
     metric = st.one_of(st.sampled_from([100, 1000, 500, 0, 1, room]), st.integers(0, 5000))
     neighbors_kind = draw(st.sampled_from(['none', 'none', 'star', 'one', 'one', 'several', 'several']))
     if neighbors_kind == 'several' and os.environ.get('VERIF_C20_NO_SEVERAL'):
@@ -113,6 +118,7 @@ def option_sets(draw):
         'local_preference': maybe(st.sampled_from([0, 100, 200, MAX32])),
         'path_id': maybe(st.sampled_from([1, 7, 65536, MAX32, 0])),
         'ips': ips,
+        'small_nets': small_nets,
         'neighbors': neighbors,
         'no_ack': draw(st.sampled_from([False, False, True])),
         'disable': draw(st.sampled_from([True, True, True, False])),
@@ -120,6 +126,9 @@ def option_sets(draw):
         'no_ip_setup': draw(st.sampled_from([False, False, True])),
         'execute': draw(st.sampled_from([False, False, False, True])),
         'fast': draw(st.sampled_from([1, 0.25])),
+        # handled by main() between parse() and loop(): the list is rotated, networks are split into their addresses
+        'start_ip': draw(st.sampled_from([0, 0, 0, 1, 2, 3, 7])),
+        'deaggregate': draw(st.sampled_from([False, False, False, False, True])),
     }
 
 
@@ -153,6 +162,21 @@ def cases(draw):
     return {'options': opts, 'script': script, 'end': end}
 
 
+def given_ips(o: dict) -> list[str]:
+    """what follows --ip on the command line"""
+    return list(o['small_nets']) if o.get('deaggregate') else list(o['ips'])
+
+
+def announced_ips(o: dict) -> list[str]:
+    """the addresses the helper is asked to announce, in its order: --deaggregate-networks splits every network into its addresses,
+    --start-ip N makes the N-th of the list the first (healthcheck --help: 'index of the first IP in the list of IP addresses')"""
+    nets = [ipaddress.ip_network(i) for i in given_ips(o)]
+    if o.get('deaggregate'):
+        nets = [ipaddress.ip_network(a) for n in nets for a in n]
+    k = (o.get('start_ip') or 0) % len(nets)
+    return [str(n) for n in nets[k:] + nets[:k]]
+
+
 def argv_for(o: dict, end: dict) -> list[str]:
     argv = ['--no-syslog', '--cmd', 'verif-scripted-check', '--rise', str(o['rise']), '--fall', str(o['fall'])]
     argv += ['--fast-interval', str(o['fast'])]
@@ -183,8 +207,12 @@ def argv_for(o: dict, end: dict) -> list[str]:
         argv += ['--local-preference', str(o['local_preference'])]
     if o['path_id'] is not None:
         argv += ['--path-id', str(o['path_id'])]
-    for ip in o['ips']:
+    for ip in given_ips(o):
         argv += ['--ip', ip]
+    if o.get('start_ip'):
+        argv += ['--start-ip', str(o['start_ip'])]
+    if o.get('deaggregate'):
+        argv.append('--deaggregate-networks')
     for n in o['neighbors']:
         argv += ['--neighbor', n]
     if o['no_ack']:
@@ -338,35 +366,71 @@ def parse_options(argv: list[str]):
         real_sys.argv = saved
 
 
-def run_loop(options, run: Run) -> str:
-    """loop(options) with its collaborators replaced; returns how it ended"""
+class _Carry(BaseException):
+    """an exception of ours crossing main()'s `except Exception` (which would turn it into exit status 1)"""
+
+    def __init__(self, exc: Exception) -> None:
+        BaseException.__init__(self, repr(exc))
+        self.exc = exc
+
+
+def _carried(fn):
+    def wrapper(*a, **kw):
+        try:
+            return fn(*a, **kw)
+        except Exception as exc:  # noqa: BLE001 - Violation / harness RuntimeError raised by the scripted collaborators
+            raise _Carry(exc) from None
+
+    return wrapper
+
+
+def run_main(argv: list[str], run: Run) -> tuple[str, object]:
+    """the helper's own entry point main() - parse(), the --deaggregate-networks / --start-ip handling, loop() - with the
+    collaborators replaced; returns (how it ended, the options loop() was given)"""
     import signal
     import subprocess
     import time
 
     from exabgp.application import healthcheck as hc
 
-    names = ('sys', 'time', 'os', 'signal', 'subprocess', 'check', 'setup_ips', 'remove_ips')
+    names = ('sys', 'time', 'os', 'signal', 'subprocess', 'check', 'setup_ips', 'remove_ips', 'setup_logging', 'drop_privileges', 'system_ips', 'loop')
     saved = {n: getattr(hc, n) for n in names}
     log_state = (hc.logger.propagate, hc.logger.level, list(hc.logger.handlers), hc.logger.disabled)
     hc.logger.propagate = False
     hc.logger.handlers = [logging.NullHandler()]
     hc.logger.setLevel(logging.CRITICAL)
-    stdio = Shim(object(), write=run.write, flush=run.flush, isatty=run.isatty, readline=run.readline)
+    stdio = Shim(object(), write=_carried(run.write), flush=run.flush, isatty=run.isatty, readline=_carried(run.readline))
     hc.sys = Shim(real_sys, stdout=stdio, stdin=stdio)
-    hc.time = Shim(time, sleep=run.sleep)
-    hc.os = Shim(os, path=Shim(os.path, exists=run.exists))
+    hc.time = Shim(time, sleep=_carried(run.sleep))
+    hc.os = Shim(os, path=Shim(os.path, exists=_carried(run.exists)))
     hc.signal = Shim(signal, signal=run.signal, alarm=lambda *a: 0)
-    hc.subprocess = Shim(subprocess, call=run.call, Popen=run.forbidden, check_call=run.forbidden)
-    hc.check = run.check
+    hc.subprocess = Shim(subprocess, call=run.call, Popen=_carried(run.forbidden), check_call=_carried(run.forbidden))
+    hc.check = _carried(run.check)
     hc.setup_ips = run.setup_ips
     hc.remove_ips = run.remove_ips
+    hc.setup_logging = lambda *a, **kw: None
+    hc.drop_privileges = lambda *a, **kw: None
+    hc.system_ips = _carried(run.forbidden)
+    seen: dict = {}
+    real_loop = saved['loop']
+
+    def loop(options):
+        seen['options'] = options
+        seen['ips'] = [str(i) for i in options.ips]
+        return real_loop(options)
+
+    hc.loop = loop
+    saved_argv = real_sys.argv
+    real_sys.argv = ['healthcheck'] + argv
     try:
-        hc.loop(options)
-        return 'return'
+        hc.main()
+        return 'return', seen
     except SystemExit as exc:
-        return f'exit:{exc.code}'
+        return f'exit:{exc.code}', seen
+    except _Carry as carry:
+        raise carry.exc from None
     finally:
+        real_sys.argv = saved_argv
         for n, v in saved.items():
             setattr(hc, n, v)
         hc.logger.propagate, level, handlers, hc.logger.disabled = log_state
@@ -646,12 +710,27 @@ def check(case: dict) -> dict:
     several = len(o['neighbors']) > 1 and '*' not in o['neighbors']
     classes = [f'end:{end["kind"]}' + (f':{end["where"]}' if end['kind'] == 'sigterm' else ''), f'neighbors:{"several" if several else ("star" if "*" in o["neighbors"] else len(o["neighbors"]))}']
 
-    options = parse_options(argv_for(o, end))
-    if [str(i) for i in options.ips] != [str(ipaddress.ip_network(i)) for i in o['ips']] or options.rise != rise or options.fall != fall:
+    argv = argv_for(o, end)
+    options = parse_options(argv)
+    if [str(i) for i in options.ips] != [str(ipaddress.ip_network(i)) for i in given_ips(o)] or options.rise != rise or options.fall != fall:
         raise RuntimeError('harness: parse() did not give back the drawn options')
+    # from here on `ips` is the list the helper is asked to announce, in its order
+    wanted = announced_ips(o)
+    o = dict(o, ips=wanted)
+    n_ips = len(wanted)
+    if case['options'].get('start_ip'):
+        classes.append('start-ip')
+        if case['options']['start_ip'] % n_ips:
+            classes.append('start-ip:list-rotated')
+    if case['options'].get('deaggregate'):
+        classes.append('deaggregate-networks')
     run = Run(script, end)
     try:
-        ended = run_loop(options, run)
+        ended, seen = run_main(argv, run)
+        if 'ips' not in seen:
+            raise Violation('main:loop-not-reached', f'main() ended with {ended} before the loop for {argv}')
+        if seen['ips'] != wanted:
+            raise Violation('main:address-list', f'the loop was given {seen["ips"]}, the command line asks for {wanted} ({argv})')
     except Violation:
         raise
     except KeyboardInterrupt:
